@@ -404,6 +404,57 @@ def exec_slow_consumer(ctx, case: Dict[str, Any]) -> None:
                sample={"case": case, "singles": n_singles, "members": len(tail), "rejections": len(rej)})
 
 
+def exec_reentered_client(ctx, case: Dict[str, Any]) -> None:
+    """The same StdioClient object entered a second time: the new connection has negotiated nothing, whatever the
+    previous one had agreed on."""
+    import asyncio
+    import importlib
+    from vf.recorders import OpenProcessPatch, ScriptedProcess
+    from vf.vloop import run_virtual
+    from chuk_mcp.transports.stdio.parameters import StdioParameters
+    SC = importlib.import_module("chuk_mcp.transports.stdio.stdio_client")
+    v1, v2, members = case["first"], case["second"], case["batch"]
+
+    async def main():
+        with OpenProcessPatch(lambda command, **kw: ScriptedProcess([], hold_open=True)) as patch:
+            client = SC.StdioClient(StdioParameters(command="scripted"))
+            async with client:
+                if v1:
+                    client.set_protocol_version(v1)
+                await asyncio.sleep(0.01)
+            async with client:
+                if v2:
+                    client.set_protocol_version(v2)
+                proc = patch.spawned[-1]
+                read, _w = client.get_streams()
+                proc.feed((json.dumps([MEMBERS[k] for k in members]) + "\n").encode())
+                proc.feed((json.dumps(MEMBERS["note"]) + "\n").encode())
+                await asyncio.sleep(0.05)
+                got = []
+                while True:
+                    try:
+                        got.append(read.receive_nowait())
+                    except Exception:
+                        break
+                return got, proc.stdin_bytes(), client.get_batching_info()
+    try:
+        (got, stdin, binfo), _ = run_virtual(main, max_iterations=300_000)
+    except Exception as e:  # noqa
+        ctx.violation("harness_or_crash", f"re-entered client: {e!r}", case)
+        return
+    ctx.count("stdio_sessions")
+    got_w = [norm_wire(msg_to_wire(m)) for m in got if not isinstance(m, list)]
+    exp = []
+    if ref_batching(v2):
+        exp += [(norm_wire(MEMBERS[k]), inbound_class(MEMBERS[k]) == "valid") for k in members if inbound_class(MEMBERS[k]) != "invalid"]
+    exp.append((norm_wire(MEMBERS["note"]), True))
+    ok, why = seq_match(got_w, exp)
+    if not ok or binfo["batching_enabled"] != ref_batching(v2):
+        ctx.violation("stale_batching_mode", f"client object used at {v1!r}, left, entered again (now at {v2!r}): {why or binfo}", case)
+    ctx.record(case, shape=[len(got_w), binfo["batching_enabled"]], nontrivial=True, cls="reentered_client",
+               sample={"case": case, "delivered": len(got_w), "batching_info": binfo})
+
+
 def exec_two_clients(ctx, case: Dict[str, Any]) -> None:
     """Two stdio clients alive in one process at different negotiated versions: each applies its own rule."""
     from vf.stdio_harness import run_multi_stdio
@@ -523,6 +574,11 @@ def run(ctx):
                 case = {"slow_consumer": True, "v1": v1, "v2": v2, "singles": n_before, "batch": b}
                 if ctx.mine():
                     exec_slow_consumer(ctx, case)
+    for v1, v2 in (("2025-06-18", None), ("2025-03-26", None), ("2025-06-18", "2025-03-26"), ("2025-03-26", "2025-06-18"), (None, None)):
+        for b in (["req", "note"], ["resp", "bad_obj"]):
+            case = {"reentered": True, "first": v1, "second": v2, "batch": b}
+            if ctx.mine():
+                exec_reentered_client(ctx, case)
     for va, vb in itertools.permutations([None, "2025-03-26", "2025-06-18", "2025-06-19", "2024-11-05"], 2):
         for b in (["req", "note"], ["resp", "bad_obj", "err"]):
             for order in ("ab", "ba"):
@@ -534,6 +590,10 @@ def run(ctx):
 
 
 def replay(ctx, case):
+    if case.get("reentered"):
+        exec_reentered_client(ctx, case)
+        ctx.record({"x": 1}, shape=1)
+        return
     if case.get("slow_consumer"):
         exec_slow_consumer(ctx, case)
         ctx.record({"x": 1}, shape=1)
